@@ -84,10 +84,26 @@ def single_ops(chk, cfg):
       elif len(chk.samples) < 4 and op['o'] == 'update' and len(d) == 2:
         chk.sample({'dict': d, 'op': op, 'result': want})
       chk.distinct_case(('d', i, j))
-  chk.notes['single_op_cases'] = {'list': n_l, 'dict': n_d}
+  # batched rebind with two index entries on a 12-element list (indices of one and two digits)
+  n_r = 0
+  for j, op in enumerate(data['rbops']):
+    want = ('ok', list(data['rbres'][j]))
+    got_b = pc.rebind_apply(data['rblist'], op, symbolic=False)
+    chk.require(got_b == want, f'PyContainers.tla disagrees with builtin list on rebind: {op} spec={want} builtin={got_b}')
+    got = pc.rebind_apply(data['rblist'], op, symbolic=True)
+    n_r += 1
+    chk.evaluations += 1
+    cnt['rebind2:ok'] = cnt.get('rebind2:ok', 0) + 1
+    if got != want:
+      chk.violation({'container': 'list', 'op': 'rebind', 'clause': 'outcome' if got[0] != want[0] else 'content',
+                     'kinds': op['ki'] + '+' + op['kj'], 'digits': f"{len(str(op['i']))}+{len(str(op['j']))}"},
+                    {'list': data['rblist'], 'op': op, 'spec': want, 'impl': got})
+    chk.distinct_case(('r', j))
+  chk.notes['single_op_cases'] = {'list': n_l, 'dict': n_d, 'rebind_two_entries': n_r}
   chk.notes['single_op_hits'] = dict(sorted(cnt.items()))
   for need in ('getslice:ok', 'setslice:ok', 'setslice:ValueError', 'delslice:ok', 'pop:IndexError', 'remove:ValueError',
-               'd.getitem:KeyError', 'd.popitem:KeyError', 'd.set_missing:ok', 'd.update:ok', 'd.ior:ok', 'imul:ok', 'iadd:ok'):
+               'd.getitem:KeyError', 'd.popitem:KeyError', 'd.set_missing:ok', 'd.update:ok', 'd.ior:ok', 'imul:ok', 'iadd:ok',
+               'rebind2:ok', 'd.setdefault:ok'):
     chk.require(cnt.get(need, 0) > 0, f'vacuous: no single-op case {need}')
 
 
@@ -108,3 +124,44 @@ def run(chk):
   for need in ('ListSetSlice:ok', 'ListDelSlice:ok', 'ListPop:ok', 'ListPop:IndexError', 'DictPop:KeyError', 'Rebind:ok',
                'ListIMul:ok', 'DictUpdate:ok', 'ListSetSlice:ValueError'):
     chk.require(hits.get(need, 0) > 0, f'vacuous: no replayed step {need}')
+
+
+def replay(chk, path):
+  """./check C02 --replay FILE: a recorded history is re-run through SymTree.tla; a recorded single operation is
+  looked up again in the case table TLC exports from PyContainers.tla and re-run on the real container."""
+  import json  # pylint: disable=import-outside-toplevel
+  rec = json.loads(open(path).read())
+  det = rec['detail']
+  if 'history' in det:
+    symtree_check.replay_file(chk, path, CLAUSES, None)
+    return
+  data, r = tlc.export_json('PyContainers', 'C02_export_thorough.cfg' if rec.get('tier') == 'thorough' else 'C02_export.cfg',
+                            timeout=1500)
+  chk.add_tlc(r)
+  op = det['op']
+  chk.traces += 1
+  chk.evaluations += 1
+  chk.distinct_case(('replay', json.dumps(det['op'], sort_keys=True)))
+  if 'ki' in op:
+    j = data['rbops'].index(op)
+    want = ('ok', list(data['rbres'][j]))
+    got = pc.rebind_apply(data['rblist'], op, symbolic=True)
+    bad = got != want
+    sig = rec['signature']
+  elif 'list' in det:
+    i, j = data['lists'].index(det['list']), data['lops'].index(op)
+    want = pc.expected(data['lres'][i][j])
+    got = pc.list_apply(det['list'], op, symbolic=True)
+    bad = (got[0], got[1], got[2]) != (want[0], want[1], want[2]) or any(v is False for v in got[3].values())
+    sig = rec['signature']
+  else:
+    i, j = data['dicts'].index(det['dict']), data['dops'].index(op)
+    want = pc.expected(data['dres'][i][j])
+    got = pc.dict_apply(det['dict'], op, symbolic=True)
+    bad = (got[0], got[1], got[2]) != (want[0], want[1], want[2]) or any(v is False for v in got[3].values())
+    sig = rec['signature']
+  chk.sample({'replayed_case': det.get('list', det.get('dict')), 'op': op, 'spec': list(want), 'impl': list(got)[:3]})
+  if bad:
+    chk.violation(sig, {**{k: det[k] for k in det if k in ('list', 'dict', 'op')}, 'spec': want, 'impl': got})
+  else:
+    print('replay: the case conforms on this tree')
